@@ -36,6 +36,14 @@ T = {
  "C37-set-qos-default-skips-checks": ("C37", "DataWriter::set_qos(QosKind::Default) skips consistency/immutability checks", "enabled writer, publisher default QoS changed in an immutable policy, then set_qos(Default)", []),
  "C38-fragment-size-truncating-cast": ("C38", "set_fragment_size narrows the argument to u16 before the range check", "a value >= 65544 whose low 16 bits fall in 8..=65000", []),
  "C42-sleep-registers-first-waker-only": ("C42", "Sleep::poll registers its wake with the timer thread only on the first poll", "a Sleep polled by different wakers before its deadline (block_timeout then block_on, migration) or reset()", []),
+ "C07-inline-qos-offset-checked-against-datagram": ("C07", "octetsToInlineQos of DATA / DATA_FRAG is validated against the bytes left in the datagram instead of the submessage's own length", "a DATA/DATA_FRAG submessage followed by another submessage or trailing bytes, with octetsToInlineQos + 4 between the submessage length and the bytes left", ["C06"]),
+ "C09-xcdr1-origin-taken-before-header": ("C09", "XCDR1 serialize_mmember records the position to resume the enclosing alignment before the 4-byte parameter header instead of after it", "XCDR1, a parameter-list member (@optional, nested mutable) followed by an 8-byte aligned member in the enclosing object", ["C10"]),
+ "C10-xcdr1-origin-not-restored-for-absent-optional": ("C10", "XCDR1 alignment origin is restored only when the optional member is present", "XCDR1, final/appendable struct with an absent @optional member at an offset = 0 mod 8, followed by an 8-byte aligned member", ["C09"]),
+ "C11-alive-sample-key-from-key-holder": ("C11", "when a received change has no key hash the key of an ALIVE sample is deserialized from the front of the payload as if it were the key holder", "no key hash in the message (fragmented sample, foreign writer) and key members that are not the leading members of the type", []),
+ "C12-max-key-size-array-padding-per-element": ("C12", "maximum serialized key size of array / bounded sequence key members charges the first element's alignment padding once per element", "a misaligned array key member of > 1 elements whose true maximum key size is <= 16 but whose over-estimate exceeds 16", ["C11"]),
+ "C39-xcdr2-mutable-lookup-order-dependent": ("C39", "XCDR2 mutable member lookup continues from the previously found member instead of the object start", "XCDR2 mutable types whose common members are in a different relative order on writer and reader side", []),
+ "C40-auto-id-counter-monotone": ("C40", "derive(DdsType): the automatic member id counter of a mutable struct never decreases", "explicit ids in non-ascending order followed by members without id", []),
+ "C41-optional-honoured-only-as-last-annotation": ("C41", "IDL compiler: @optional only takes effect when it is the member's last annotation", "a member with @optional followed by another annotation (e.g. @optional @id(3))", []),
 }
 NOTES = {
  "C27-ack-watermark-max": "initially MISSED by the C27 check (single reader); the scenario got a healthy-second-reader variant, after which it is caught",
